@@ -4,6 +4,7 @@ package main
 
 import (
 	"fmt"
+	"strings"
 	"math/rand"
 	"os"
 	"sort"
@@ -169,10 +170,24 @@ func (e *Explorer) absorb(m *Machine, pr *PathResult, rng *rand.Rand) {
 	default:
 		if len(r.Inconclusive) < 20 {
 			why := pr.Why
+			if os.Getenv("GOSYM_DEBUG") == "" {
+				if i := strings.Index(why, "\ngoroutine "); i >= 0 {
+					why = why[:i]
+				}
+			}
 			if len(why) > 700 {
 				why = why[:700] + " ..."
 			}
-			r.Inconclusive = append(r.Inconclusive, pr.Outcome+": "+why)
+			msg := pr.Outcome + ": " + why
+			dup := false
+			for _, old := range r.Inconclusive {
+				if old == msg {
+					dup = true
+				}
+			}
+			if !dup {
+				r.Inconclusive = append(r.Inconclusive, msg)
+			}
 		}
 	}
 	if pr.Unknowns > 0 && len(r.Inconclusive) < 20 {
